@@ -35,6 +35,13 @@ Refused == /\ More /\ Ev.op = "refused"
            /\ mstate' = [i \in 1..N |-> Ev.m[i].state]
            /\ UNCHANGED <<ecfg, mtotal, msince, estate, etotal, esince, ecnt>>
            /\ Own /\ Adv
-Next == Upd \/ Rst \/ SetRef \/ Refused
+(* the caller replaces a member object (ensemble.detectors[key] = new detector, e.g. after retraining): the ensemble's own state is untouched,
+   and from the next update on the election is held over the members that are in the dictionary now *)
+Replace == /\ More /\ Ev.op = "replace"
+           /\ AsIfAlone
+           /\ mstate' = [i \in 1..N |-> Ev.m[i].state]
+           /\ UNCHANGED <<ecfg, mtotal, msince, estate, etotal, esince, ecnt>>
+           /\ Own /\ Adv
+Next == Upd \/ Rst \/ SetRef \/ Refused \/ Replace
 Spec == Init /\ [][Next]_tvars
 =============================================================================
